@@ -22,9 +22,9 @@ EXPLANATION = (
     'mutated: no store or mutating call through a parameter (alias aware: loop variables over a parameter and .scale on a shallow '
     'copy - Pose.scale rebinds _t_vec instead of *=); R5 uniform scaling: Pose.scale touches only _t_vec, one scale factor reaches every '
     '.scale call and is returned, factor = expected/actual (reference distance or mean sensor diagonal). Convergence of the solver and '
-    'that the transform maps the references as stated are numeric and not decided.')
+    'that the transform maps the references as stated are numeric and not decided; R6 the ray/deck-plane intersection used for the sensor diagonal has the textbook form.')
 ASSUMPTIONS = ['scipy Rotation.from_rotvec(...).as_matrix() is a proper rotation', 'copy.copy makes a shallow copy sharing attribute objects']
-FLOORS = {'R1': 4, 'R2': 6, 'R3': 4, 'R4': 8, 'R5': 6}
+FLOORS = {'R6': 6, 'R1': 4, 'R2': 6, 'R3': 4, 'R4': 8, 'R5': 6}
 
 MUT = ('append', 'extend', 'insert', 'pop', 'remove', 'clear', 'update', 'sort', 'reverse', 'scale', 'setdefault', 'popitem', 'fill', 'resize')
 
@@ -220,6 +220,26 @@ def check(ctx):
     st = {norm(s.targets[0]): norm(s.value) for s in sd.node.body if isinstance(s, ast.Assign)}
     ctx.inst('R5', sd, 'factor=expected/estimated-diagonal', st.get('scale_factor') == '%s / estimated_diagonal' % sd.params[4] and
              st.get('estimated_diagonal', '').startswith('cls._calculate_mean_diagonal('), 'sensor diagonal: factor = expected / estimated')
+    # ---- R6: ray / deck-plane intersection (what the sensor diagonal is measured with) -----------
+    ip = S.method('calc_intersection_point')
+    sti = {norm(s_.targets[0]): norm(s_.value) for s_ in ip.node.body if isinstance(s_, ast.Assign)}
+    vec, bsp_, cfp_ = ip.params[1:4]
+    ctx.inst('R6', ip, 'plane=deck-of-cf', sti.get('plane_base') == '%s.translation' % cfp_ and sti.get('plane_normal') in ('np.dot(%s.rot_matrix, (0.0, 0.0, 1.0))' % cfp_, '%s.rot_matrix[:, 2]' % cfp_),
+             'the deck plane passes through the Crazyflie position with normal R_cf . e_z (third COLUMN of the rotation matrix); found base %s normal %s' % (sti.get('plane_base'), sti.get('plane_normal')))
+    ctx.inst('R6', ip, 'ray=bs-to-sensor', sti.get('line_base') == '%s.translation' % bsp_ and sti.get('line_vector') == 'np.dot(%s.rot_matrix, %s.cart)' % (bsp_, vec),
+             'the ray starts at the base station and points along R_bs . direction; found base %s vector %s' % (sti.get('line_base'), sti.get('line_vector')))
+    ctx.inst('R6', ip, 'intersection-parameter', sti.get('dist_on_line') == 'np.dot(plane_base - line_base, plane_normal) / np.dot(line_vector, plane_normal)',
+             'distance along the ray = ((p0 - l0) . n) / (l . n); found %s' % sti.get('dist_on_line'))
+    retsi = [norm(s_.value) for s_ in walk_own(ip.node) if isinstance(s_, ast.Return)]
+    ctx.inst('R6', ip, 'intersection-point', retsi == ['line_base + line_vector * dist_on_line'], 'intersection = l0 + l * d; returns %s' % retsi)
+    idist = S.method('calc_intersection_distance')
+    std = {norm(s_.targets[0]): norm(s_.value) for s_ in idist.node.body if isinstance(s_, ast.Assign)}
+    ctx.inst('R6', idist, 'diagonal=distance-of-intersections', std.get('distance') == 'np.linalg.norm(intersection1 - intersection2)', 'sensor distance = |i1 - i2|')
+    md = S.method('_calculate_mean_diagonal')
+    dg = [norm(c.args[0]) for c in ast.walk(md.node) if method_call(c, 'append') and norm(c.func.value) == 'diagonals']
+    ctx.inst('R6', md, 'diagonal-sensor-pairs', sorted(dg) == sorted(['cls.calc_intersection_distance(vectors[0], vectors[3], bs_poses[bs_id], cf_pose)', 'cls.calc_intersection_distance(vectors[1], vectors[2], bs_poses[bs_id], cf_pose)']),
+             'the two deck diagonals are sensors 0-3 and 1-2, measured with the matching base station and Crazyflie pose; found %s' % dg)
+
     for f in (fp, sd):
         rets = [norm(s.value) for s in walk_own(f.node) if isinstance(s, ast.Return)]
         ctx.inst('R5', f, 'delegates', rets == ['cls._scale_system(%s, %s, scale_factor)' % (f.params[1], f.params[2])], 'scaling is done by _scale_system(bs_poses, cf_poses, factor)')
